@@ -67,6 +67,26 @@ def with_timeout(f, seconds):
         signal.signal(signal.SIGALRM, old)
 
 
+POISON = ('POISON',)
+
+
+def poison(x):
+    """Mutate a container a read returned to the caller (lists, dicts, sets, bytearrays; one level), so that a result that
+    aliases internal state or a process-wide cache shows up in later reads.  Values/leaves are left alone."""
+    try:
+        if type(x) is list:
+            x.append(POISON)
+        elif type(x) is dict:
+            x[POISON] = POISON
+        elif type(x) is set:
+            x.add(POISON)
+        elif type(x) is bytearray:
+            x.extend(b'POISON')
+    except Exception:       # noqa
+        pass
+    return x
+
+
 class Outcome:
     __slots__ = ('ok', 'nontrivial', 'labels', 'kind', 'detail', 'excluded', 'units')
 
